@@ -10,7 +10,9 @@ import (
 
 // C12: every sequence of Runtime API calls is answered as the documented lifecycle
 // prescribes. The first runtime process executes a symbolic script of L calls over
-// {next, response(in-flight id), response(stale id), error(in-flight id), init/error}; a small
+// {next, response(in-flight id), response(stale id), error(in-flight id), init/error, non-existing
+// call (unknown route / wrong method / restore call outside snapshot mode)}, sent through the real
+// chi router with its middleware chain; a small
 // reference automaton (written from the property text) predicts status and blocking behaviour
 // of every call; refused calls must leave the automaton (hence the following answers) unchanged.
 func verifRuntimeScript(L int) {
@@ -32,7 +34,7 @@ func verifRuntimeScript(L int) {
 			if api.Dead() {
 				return true
 			}
-			op := verifChoice(5, "runtime api call")
+			op := verifChoice(6, "runtime api call")
 			id := cur
 			if id == "" {
 				id = "none"
@@ -91,6 +93,25 @@ func verifRuntimeScript(L int) {
 					return true
 				}
 				verifAssert(st == 400 && strings.Contains(body, "InvalidRequestID"), "a wrong request id is refused with 400")
+			case 5: // calls that do not exist (here): unknown route, known route with the wrong method, snapshot-restore calls outside snapshot mode
+				which := verifChoice(4, "non-existing call")
+				var st int
+				switch which {
+				case 0:
+					st = api.Raw("GET", "/runtime/invocation/previous")
+					verifAssert(st == 404, "an unknown route is answered with 404")
+				case 1:
+					st = api.Raw("POST", "/runtime/invocation/next")
+					verifAssert(st == 405, "a known route with the wrong method is answered with 405")
+				case 2:
+					st = api.Raw("GET", "/runtime/restore/next")
+					verifAssert(st == 404, "snapshot-restore calls do not exist outside snapshot mode")
+				case 3:
+					st = api.Raw("POST", "/runtime/restore/error")
+					verifAssert(st == 404, "snapshot-restore calls do not exist outside snapshot mode")
+				}
+				verifReach("no-such-call")
+				// the state is unchanged: the automaton does not move
 			case 4: // init/error
 				st, body := api.InitError("Runtime.Boom", []byte(`{"errorMessage":"boom"}`))
 				if api.Dead() {
